@@ -1009,6 +1009,8 @@ class BaseConverter:
                 if detailed_validation is not None
                 else self.detailed_validation
             ),
+            unstructure_fallback_factory=self._unstructure_func._fallback_factory,
+            structure_fallback_factory=self._structure_func._fallback_factory,
         )
 
         self._unstructure_func.copy_to(res._unstructure_func, self._unstruct_copy_skip)
@@ -1407,6 +1409,8 @@ class Converter(BaseConverter):
                 if detailed_validation is not None
                 else self.detailed_validation
             ),
+            unstructure_fallback_factory=self._unstructure_func._fallback_factory,
+            structure_fallback_factory=self._structure_func._fallback_factory,
         )
 
         self._unstructure_func.copy_to(
